@@ -36,6 +36,7 @@ type Result struct {
 	Counters    map[string]int64 `json:"counters"` // named counters (positive cases etc.)
 	Violations  []Violation      `json:"violations"`
 	NViolations int64            `json:"n_violations"`
+	KeySeen     map[string]int64 `json:"key_seen,omitempty"` // how many executions reported each violation key
 	Samples     []interface{}    `json:"samples"`
 	Notes       []string         `json:"notes"`
 	Bound       string           `json:"bound,omitempty"`
@@ -59,6 +60,10 @@ func (r *Result) Note(format string, a ...interface{}) {
 // Violate records a violation (deduplicated by key; at most 40 kept per worker).
 func (r *Result) Violate(v Violation) {
 	r.NViolations++
+	if r.KeySeen == nil {
+		r.KeySeen = map[string]int64{}
+	}
+	r.KeySeen[v.Key]++
 	for _, o := range r.Violations {
 		if o.Key == v.Key {
 			return
@@ -87,6 +92,12 @@ func (r *Result) Merge(o *Result) {
 		r.Counters[k] += v
 	}
 	r.NViolations += o.NViolations
+	for k, n := range o.KeySeen {
+		if r.KeySeen == nil {
+			r.KeySeen = map[string]int64{}
+		}
+		r.KeySeen[k] += n
+	}
 	for _, v := range o.Violations {
 		dup := false
 		for _, e := range r.Violations {
